@@ -662,6 +662,24 @@ def rule_text_extraction(rep: Report, rid="C03.text") -> None:
     rule_docstring_fsm(rep, rid, only_text=True)
 
 
+def ds_field_writes(I, n, selft):
+    """The doc string state fields a tree node writes: [(field, value)].  A direct store into a field (of the matcher or of the
+    object it keeps the state in), or - when the state is an immutable record replaced as a whole - the store of a new record,
+    which writes every field."""
+    if n[0] != "setattr":
+        return []
+    if n[1] == N.ds_base(selft) and n[2] in (N.DS_ACTIVE, N.DS_INDENT):
+        return [(n[2], n[3])]
+    if N.DS_HOLDER is not None and n[1] == selft and n[2] == N.DS_HOLDER:
+        v = n[3]
+        cls = I.types.get(v) if isinstance(v, tuple) and v and v[0] == "tuple" else None
+        if cls is not None and cls.is_namedtuple:
+            names = cls.nt_fields()
+            return [(f_, v[1][names.index(f_)]) for f_ in (N.DS_ACTIVE, N.DS_INDENT) if f_ in names and names.index(f_) < len(v[1])]
+        return [(N.DS_ACTIVE, ("opaque", "state object replaced")), (N.DS_INDENT, ("opaque", "state object replaced"))]
+    return []
+
+
 def _activation_writes(m: MethodNF, sink_node, attrs):
     """setattr effects on self within the innermost inlined call that contains the sink (the path's state update)."""
     def find(tree, inside):
@@ -706,8 +724,9 @@ def _activation_writes(m: MethodNF, sink_node, attrs):
     nodes, hit = path_nodes(scope)
     w = {}
     for n in nodes:
-        if n[0] == "setattr" and n[1] == N.ds_base(m.selft) and n[2] in attrs:
-            w[n[2]] = n[3]
+        for f_, v_ in ds_field_writes(m.I, n, m.selft):
+            if f_ in attrs:
+                w[f_] = v_
     return w
 
 
@@ -777,10 +796,10 @@ def rule_docstring_fsm(rep: Report, rid="C13.fsm", cls_q=MQ, openers=('"""', "``
            expected=["active delimiter"], found=[fmt(s, I) if s else None for s in closed])
     # state writes happen only on matching paths: every write is dominated by a successful startswith test
     for n, ctx in nf.iter_nodes(m.tree):
-        if n[0] == "setattr" and n[1] == N.ds_base(m.selft) and n[2] in (N.DS_ACTIVE, N.DS_INDENT):
+        for f_, _v in ds_field_writes(I, n, m.selft):
             gs = nf.guards_in_ctx(ctx)
             ok = any(c[0] == "call" and c[1] == ".startswith" and p for c, p in gs)
-            rep.ob(rid, f"{n[2]} changes only when a delimiter line was matched", ok, **_kw(m, n[4]),
+            rep.ob(rid, f"{f_} changes only when a delimiter line was matched", ok, **_kw(m, n[4]),
                    expected="write under a successful delimiter test", found=[(fmt(c, I), p) for c, p in gs])
 
 
@@ -832,9 +851,27 @@ def rule_docstring_own(rep: Report, rid="C13.own") -> None:
                         mutators.add(fi.name)
                         grew = True
                         break
+        def setter_ok(fi_):
+            """a property setter kept for the old attribute names writes the state when someone assigns the property: judged at
+            those assignments (none: the setter is never run by the library)"""
+            if not any(isinstance(d, ast.Attribute) and d.attr == "setter" for d in fi_.node.decorator_list):
+                return None
+            sites_ok = True
+            for g in f.all_functions():
+                if g.module.name.startswith("scripts") or g is fi_:
+                    continue
+                for x in ast.walk(g.node):
+                    if isinstance(x, ast.Attribute) and x.attr == fi_.name and isinstance(x.ctx, (ast.Store, ast.Del)):
+                        gc = g.cls
+                        if not (gc is not None and (base in gc.mro() or gc in base.mro()) and g.name in allowed):
+                            sites_ok = False
+            return sites_ok
         for m in f.modules.values():
             for c in m.classes.values():
-                for fi in c.methods.values():
+                for fi in list(c.methods.values()) + list(c.setters.values()):
+                    so = setter_ok(fi)
+                    if so is True:
+                        continue
                     parent = {ch: p_ for p_ in ast.walk(fi.node) for ch in ast.iter_child_nodes(p_)}
                     for node in ast.walk(fi.node):
                         if not (isinstance(node, ast.Attribute) and node.attr == holder):
@@ -938,16 +975,29 @@ def rule_other_text(rep: Report, rid="C13.text", cls_q=MQ, openers=('"""', "```"
     ds = M.methods["DocStringSeparator"]
     dline = ("attr", ds.tok, "line")
     for n, ctx in nf.iter_nodes(ds.tree):
-        if n[0] == "setattr" and n[1] == N.ds_base(ds.selft) and n[2] == N.DS_INDENT:
-            writes.append(("match_DocStringSeparator", n[3], n[-1] if isinstance(n[-1], int) else None))
+        for f_, v_ in ds_field_writes(ds.I, n, ds.selft):
+            if f_ == N.DS_INDENT:
+                writes.append(("match_DocStringSeparator", v_, n[-1] if isinstance(n[-1], int) else None))
     Ir = new_interp()
     rfi = M.cls.find_method("reset")
     Ir.types[("param", rfi.params()[0])] = M.cls
     Ir.intrinsics[f"{MQ}.{N.CHANGE_DIALECT}"] = lambda I_, st_, fi_, args, kwargs, n, tree_: NONE
     rtree, _, rst = Ir.run(rfi.qualname)
-    rsets = [n for n, ctx in nf.iter_nodes(rtree) if n[0] == "setattr" and n[2] == N.DS_INDENT and not nf.guards_in_ctx(ctx)]
-    for n in rsets:
-        writes.append(("reset", n[3], None))
+    rself = ("param", rfi.params()[0])
+    rsets = []
+    for n, ctx in nf.iter_nodes(rtree):
+        if nf.guards_in_ctx(ctx):
+            continue
+        if n[0] == "setattr" and n[2] == N.DS_INDENT and N.DS_HOLDER is None:
+            rsets.append((n, n[3]))
+        else:
+            for f_, v_ in ds_field_writes(Ir, n, rself):
+                if f_ == N.DS_INDENT:
+                    rsets.append((n, v_))
+        if n[0] == "setattr" and n[2] == N.DS_INDENT and N.DS_HOLDER is not None and n[1] != rself and (n, n[3]) not in rsets:
+            rsets.append((n, n[3]))         # a field of the state object reset() creates
+    for n, v_ in rsets:
+        writes.append(("reset", v_, None))
     bad = [(w, fmt(v, ds.I)) for w, v, _ in writes if not (is_const(v, 0) or v == ("attr", dline, N.INDENT))]
     rep.ob(rid, "outside a doc string no indentation is removed from free-text lines: the indent to remove is 0 after reset() and after a closing "
                 "delimiter, and an opening delimiter's own indent inside", bool(rsets) and any(is_const(v, 0) for w, v, _ in writes if w == "reset") and not bad
@@ -1134,7 +1184,8 @@ def rule_reset(rep: Report, rid="C15.reset", classes=(MQ, "gherkin.token_matcher
                        file=rfi.file, line=rfi.node.lineno, function=rfi.qualname, expected="_change_dialect(default)", found="no dialect restore in reset()")
                 continue
             est = established.get(a, [])
-            ok = any(not gs and (is_const(v) or (v[0] == "ref" and isinstance(I.obj(v), (HList, HDict)) and v[0] == "ref")) for v, gs in est)
+            ok = any(not gs and (is_const(v) or (v[0] == "ref" and isinstance(I.obj(v), (HList, HDict)) and v[0] == "ref")
+                                 or (v[0] == "tuple" and all(is_const(x) for x in v[1]))) for v, gs in est)
             if a in held:
                 # a new object whose written fields are all constants, or every written field of the held one set to a constant
                 fresh = any(not gs and v[0] == "ref" and isinstance(I.obj(v), HInst) and all(is_const(st.ext.get((v, x), ("undef",))) for x in held[a])
